@@ -422,6 +422,26 @@ theorem applyExts_header (es : List Ext) (m : ClientHello) :
     refine ⟨h2.1.trans h1.1, h2.2.1.trans h1.2.1, h2.2.2.1.trans h1.2.2.1, h2.2.2.2.1.trans h1.2.2.2.1,
       h2.2.2.2.2.trans h1.2.2.2.2⟩
 
+/-- no built-in extension writes the parsed message's supported_versions -/
+theorem applyExt_supportedVersions (e : Ext) (m : ClientHello) :
+    (applyExt e m).supportedVersions = m.supportedVersions := by
+  cases e with
+  | sni ds =>
+    match ds with
+    | [] => simp [applyExt]
+    | [n] => simp [applyExt]
+    | _ :: _ :: _ => simp [applyExt]
+  | _ => simp [applyExt]
+
+theorem applyExts_supportedVersions (es : List Ext) (m : ClientHello) :
+    (applyExts m es).supportedVersions = m.supportedVersions := by
+  induction es generalizing m with
+  | nil => simp [applyExts]
+  | cons e t ih =>
+    have h2 := ih (applyExt e m)
+    simp only [applyExts, List.foldl_cons] at h2 ⊢
+    exact h2.trans (applyExt_supportedVersions e m)
+
 theorem applyExts_cons (e : Ext) (t : List Ext) (m : ClientHello) :
     applyExts m (e :: t) = applyExts (applyExt e m) t := rfl
 
@@ -727,5 +747,32 @@ theorem marshal_of_guards (cfg : Cfg) (force : Bool) (rand : Bytes) (time : Nat)
   simp only [List.length_cons, List.length_nil, List.drop_succ_cons, List.drop_zero]
   simp
   exact hlen
+
+
+/-! ### the hello a real client sends (`wireHello`) -/
+
+/-- without `Autopopulate` entries `ClientFingerprintConfiguration.WriteToConfig` leaves the list alone -/
+theorem wtcLoop_plain (fuel i : Nat) (exts : List WExt) (sn : Bytes)
+    (h : ∀ w ∈ exts, w.auto = false) : (wtcLoop fuel i exts sn).1 = exts := by
+  induction fuel generalizing i sn with
+  | zero => simp [wtcLoop]
+  | succ n ih =>
+    simp only [wtcLoop]
+    cases hg : exts[i]? with
+    | none => simp
+    | some w =>
+      have hw : w.auto = false := h w (List.mem_of_getElem? hg)
+      simp only [hw]
+      split <;> simp [ih]
+
+/-- without `Autopopulate` entries the session-ticket loop changes nothing and reads no randomness -/
+theorem ticketLoop_plain (session : Option Bytes) (force : Bool) (rsid : Nat) (exts : List WExt) (sid rand : Bytes)
+    (h : ∀ w ∈ exts, w.auto = false) : ticketLoop session force rsid exts sid rand = some (exts, sid, rand) := by
+  induction exts with
+  | nil => simp [ticketLoop]
+  | cons w rest ih =>
+    have hw : w.auto = false := h w (by simp)
+    have hr : ∀ w ∈ rest, w.auto = false := fun x hx => h x (by simp [hx])
+    simp [ticketLoop, hw, ih hr]
 
 end ZV.C29
